@@ -376,4 +376,6 @@ func irGenAuth(c *runCtx, run func([]string)) {
 	}
 	r.Shuffle(len(ops), func(i, j int) { ops[i], ops[j] = ops[j], ops[i] })
 	run(ops)
+	// node lives over the caching indexer (stateful sequences)
+	irGenIndexer(c, run)
 }
